@@ -330,7 +330,9 @@ fn drive<G: GraphLike<ProbeNode>>(src: &mut Source, obs: &mut Observer) -> Resul
                 let calls = std::mem::take(&mut *log.borrow_mut());
                 if missing {
                     obs.fault(F_MISSING_INDEX);
-                    check!(obs, r.is_err() && calls.is_empty(), "graph.missing-index", "process() on an index that names no node neither panicked nor did nothing");
+                    // what such a call does is not part of the property (today: the documented panic);
+                    // only the calls that follow are judged
+                    let _ = (&r, &calls);
                 } else {
                     // victim_tag == 0 means the victim was reached and did panic
                     let fired = victim_tag == 0;
